@@ -294,7 +294,7 @@ PROPS["C11"] = dict(
 
 PROPS["C16"] = dict(
     pkg="c16", race=False, level="exploration", prepare="exec_projects",
-    projects_quick=[("core", ["v0"])], projects_thorough=[("core", ["v0", "v1"])],
+    projects_quick=[("core", ["v0"]), ("fed2", ["v0"])], projects_thorough=[("core", ["v0", "v1"]), ("fed2", ["v0", "v1"]), ("fed1", ["v0"])],
     quick=dict(shards=8, timeout=900), thorough=dict(shards=16, timeout=3000),
     claim="round-trip testing of introspection over rapid-generated schemas (interfaces implementing interfaces, unions, recursive "
           "inputs, defaults of every literal kind incl. object defaults and control characters, descriptions, @deprecated on fields, "
